@@ -166,7 +166,7 @@ pub fn dispatch(name: &str, args: &[&str]) -> Option<String> {
 }
 
 /// connect to `target` from the given loopback source address (any address in 127.0.0.0/8 is local on Linux)
-fn socket_from(src: IpAddr, target: SocketAddr) -> TcpStream {
+pub fn socket_from(src: IpAddr, target: SocketAddr) -> TcpStream {
     // std has no bind-before-connect; use a raw socket through libc-free approach: bind a listener trick is not possible,
     // so go through socket2-less syscalls with std::os::fd.
     use std::os::fd::FromRawFd;
